@@ -539,6 +539,9 @@ def single_outcome(ctx, c, case, e, judge):
 
 # ------------------------------------------------------------------ workers
 def worker(ctx, job):
+    from ioflo.base import building
+    policy = L.probe(building.Convert2Num)      # does the hex step of the real code read unprefixed hex digits?
+    ctx.hit("barehex_policy_%s" % {True: "hex", False: "not_hex", None: "mixed"}[policy])
     if job["kind"] == "direct":
         return worker_direct(ctx, job)
     return worker_flo(ctx, job)
